@@ -66,6 +66,8 @@ def replay_all(ctx, bs, family, threaded_groups=0):
             ctx.evaluations += len(b)
             ctx.nontriv(("seq", kinds, len(b)))
             ctx.notes["replay_checks"] = ctx.notes.get("replay_checks", 0) + W.checks
+            if family == "purity":
+                ctx.notes["lifetime_checks"] = ctx.notes.get("lifetime_checks", 0) + hdreplay.lifetime_check(W)
         except hdreplay.Mismatch as m:
             if m.family == family:
                 ctx.violation("hdwallet-replay", m.family, m.what, {"mode": "sequential", "behaviour": b})
